@@ -28,7 +28,7 @@ import numpy as np
 
 from mc import combi
 from mc.ref import c20_ref as ref
-from mc.util import allclose, maxreldev, rng_for
+from mc.util import allclose, fingerprint, maxreldev, rng_for
 
 PROPERTY = 'C20'
 LEVEL = 'exploration'
@@ -48,7 +48,15 @@ RULE = ('bids: every subset of {ses,task,run,space,desc} x derivative in {none,f
         'ordered triple) of files of a small dataset whose files differ from a base file in exactly '
         'one entity, the same look-up (or all look-ups) applied to each in turn through ONE BidsLayout, '
         'one evaluation per look-up. meadows stimulus names come from five alphabets, three of them '
-        'with prefix pairs continued by characters on both sides of the dot.')
+        'with prefix pairs continued by characters on both sides of the dot. calls: per importer family '
+        '(meadows, mne, design, spm) every ordered pair of a small menu of unlike inputs - A then B, '
+        'and A twice on the very same input (spm: through the same SpmGlm object) - the later answer '
+        'judged like any other and compared bit-for-bit with the answer given right after the importer '
+        'module was re-initialised; bids_trees: two BidsLayout objects over two trees with the same '
+        'relative paths, both orders. Every call is followed by a comparison of the caller-owned '
+        'arguments (tables, arrays, dicts, file, file object) with their state before the call. '
+        'Values ride on scales 1, 1e6, 1e-8 (meadows, mne, spm, confounds), TR 0.72 next to 1 and 2, '
+        'BIDS / stimulus labels include numeric-looking ones (01 / 1 / 010 / 0) and prefixes.')
 ASSUMPTIONS = [
     'BIDS labels are alphanumeric (BIDS specification); the path grammar is sub, ses, task, run, '
     'space, desc + suffix + extension with sub-/ses-/modality directories and an optional '
@@ -65,7 +73,12 @@ ASSUMPTIONS = [
     'start with n/a); the order of the condition columns is not judged',
     'SpmGlm is fed through a patched loadmat (like the repository tests) with 2-D X0 matrices '
     'and an ndarray nscan; fidelity to real SPM.mat files read with simplify_cells is not judged',
-    'FIF files store single precision: data read back from disk are compared at 1e-6',
+    'FIF files store single precision: data read back from disk are compared at 1e-6 of the largest value',
+    'event onsets are seconds from the first volume (BIDS); onsets on another clock (e.g. epoch time '
+    '1696300000.0) put every event outside the scan, the column is constant and its normalisation '
+    'undefined - excluded',
+    'a caller-owned argument that is changed by a call is reported as modifies-argument:<arg>; this is '
+    'the precondition for judging later calls on the same objects, not a clause of the statement',
 ]
 TOL = 1e-9
 TOLERANCES = {'design range/mean': TOL, 'spm projection': TOL, 'mne times': 1e-9,
@@ -182,7 +195,7 @@ def shards(tier, seed):
                     if not thorough:
                         # quick: the unusual TR and the unusual scales are crossed with one
                         # volume count and with each other, not with every n/a table
-                        if tr == 0.72 and not (n_vols == 40 and conf in ('none', 'scaled')):
+                        if tr == 0.72 and not (n_vols == 40 and conf == 'scaled'):
                             continue
                         if conf == 'scaled' and tr != 0.72 and not (tr == 1.0 and n_vols == 20):
                             continue
@@ -217,7 +230,7 @@ def run_shard(shard, ctx):
                     run_case({'part': 'calls', 'family': shard['family'], 'pair': [i, j]}, ctx, root)
     elif part == 'bids_trees':
         with _scratch() as root:
-            for lay in SEQ_LAYOUTS:
+            for lay in (SEQ_LAYOUTS if ctx.tier == 'thorough' else SEQ_LAYOUTS[:2]):
                 for idx in range(len(_seq_files(lay))):
                     for order in ('AB', 'BA'):
                         run_case({'part': 'bids_trees', 'layout': lay, 'file': idx, 'order': order}, ctx, root)
@@ -671,7 +684,7 @@ def _call_menu(family):
                 {'part': 'design', 'grid': grid, 'assign': [2, 1, 0, 1], 'tr': 2.0, 'n_vols': 40,
                  'conf': 'nan_middle', 'dur': 1.0, 'rows': 'onset'},
                 {'part': 'design', 'grid': grid, 'assign': [1, 1, 0, 0], 'tr': 0.72, 'n_vols': 40, 'conf': 'none',
-                 'dur': 1.0, 'rows': 'onset'},
+                 'dur': 0.5, 'rows': 'onset'},
                 {'part': 'design', 'grid': grid, 'assign': [0, 1, 2, 3], 'tr': 1.0, 'n_vols': 40, 'conf': 'scaled',
                  'dur': 2.0, 'rows': 'reversed'}]
     if family == 'spm':
@@ -685,22 +698,49 @@ def _call_menu(family):
     raise ValueError(family)
 
 
+_LAST = {}                 # bit-level fingerprint of the last importer result (set by the case functions)
+_CALL_MODULES = {'meadows': ('rsatoolbox.io.meadows', 'meadows.load_rdms'),
+                 'mne': ('rsatoolbox.io.mne', 'mne.dataset_from_epochs/read_epochs'),
+                 'design': ('rsatoolbox.io.fmriprep', 'make_design_matrix'),
+                 'spm': ('rsatoolbox.io.spm', 'SpmGlm')}
+
+
 def _calls_case(case, ctx, root):
+    """A then B (or A twice on the very same input) in one process: the later answer is judged
+    like any other, and must be bit-identical to the answer of a call made right after the
+    importer module was re-initialised (importlib.reload: module-level state gone)"""
+    import importlib
+    from mc.runner import Ctx
     menu = _call_menu(case['family'])
     i, j = case['pair']
     a, b = menu[i], menu[j]
+    same = i == j
+    tag = 'same-input-twice' if same else 'after-another-call'
     if case['family'] == 'spm':
         # the state lives in the SpmGlm object: earlier data go through the SAME object
         if (a['nscans'], a['ncols'], a['route']) != (b['nscans'], b['ncols'], b['route']):
             return
-        tag = 'same-input-twice' if i == j else 'after-another-call'
-        _run_case(dict(b, prior_fills=[a['fill']]), _TagCtx(ctx, tag), root)
-        return
-    if i == j:
-        _run_case(dict(a, twice=True), _TagCtx(ctx, 'same-input-twice'), root)
+        first, second = None, dict(b, prior_fills=[a['fill']])
+    elif same:
+        first, second = None, dict(a, twice=True)
     else:
-        _run_case(a, ctx, root)
-        _run_case(b, _TagCtx(ctx, 'after-another-call'), root)
+        first, second = a, b
+    modname, op = _CALL_MODULES[case['family']]
+    module = importlib.import_module(modname)
+    importlib.reload(module)
+    _LAST.pop('fp', None)
+    _run_case(b, Ctx(ctx.prop, ctx.tier, ctx.seed), root)        # the fresh answer (not judged here)
+    fresh = _LAST.pop('fp', None)
+    importlib.reload(module)
+    if first is not None:
+        _run_case(first, ctx, root)
+    _LAST.pop('fp', None)
+    _run_case(second, _TagCtx(ctx, tag), root)
+    later = _LAST.pop('fp', None)
+    if fresh is not None and later is not None and fresh != later:
+        ctx.fail('%s|%s|differs-from-fresh-call' % (op, tag), case,
+                 'input %r: the answer after %s is not bit-identical to the answer of a fresh call' % (
+                     b, 'the same call' if same else 'a call with %r' % (a,)))
 
 
 # ------------------------------------------------------------------------------ Meadows
@@ -831,6 +871,8 @@ def _meadows_case(case, ctx, root):
                 ctx.fail(sigp + '|n_rdms', case, '%d RDMs for %d records' % (rdms.n_rdm, len(expected)))
                 return
             conds = [str(c) for c in rdms.pattern_descriptors.get('conds', [])]
+            _LAST['fp'] = fingerprint([conds, np.asarray(rdms.dissimilarities),
+                                       {k: [str(v) for v in vals] for k, vals in rdms.rdm_descriptors.items()}])
             want_labels = sorted(file_labels) if sort else list(file_labels)
             ctx.outcome(('meadows', shape, tuple(np.argsort(file_labels).tolist()), sort))
             if sorted(conds) != sorted(file_labels):
@@ -940,6 +982,8 @@ def _mne_case(case, ctx, root):
                 ds = rmne.read_epochs(fpath)
                 tol = 1e-6
             meas = np.asarray(ds.measurements)
+            _LAST['fp'] = fingerprint([meas] + [{k: [str(v) for v in vals] for k, vals in d.items()} for d in (
+                ds.obs_descriptors, ds.channel_descriptors, ds.time_descriptors)])
             if meas.shape != (ne, nc, nt):
                 ctx.fail(sigp + '|shape', case, 'measurements %r for epochs %r' % (meas.shape, (ne, nc, nt)))
                 return
@@ -1038,6 +1082,7 @@ def _design_case(case, ctx):
             ctx.fail('%s|modifies-argument:confounds' % sigp, case, 'the confounds table handed in was changed')
         dm = np.asarray(dm, dtype=float)
         mask = np.asarray(mask)
+        _LAST['fp'] = fingerprint([dm, mask, float(dof)])
         ctx.outcome(('design', dm.shape, tuple(bool(m) for m in mask.tolist()), int(dof)))
         if dm.ndim != 2 or dm.shape[0] != n_vols:
             ctx.fail(sigp + '|shape-volumes', case, 'shape %r for %d volumes' % (dm.shape, n_vols))
@@ -1178,6 +1223,7 @@ def _spm_case(case, ctx):
         for k, (b0, b1) in enumerate(zip(bases, stub['SPM']['xX']['K'])):
             if not np.array_equal(b0, b1['X0']):
                 ctx.fail(sigp + '|modifies-argument:X0', case, 'filter matrix of run %d was changed' % k)
+        _LAST['fp'] = fingerprint(out)
         if out.shape != y.shape:
             ctx.fail(sigp + '|shape', case, 'shape %r for data %r' % (out.shape, y.shape))
             return
